@@ -88,7 +88,11 @@ def fifo_program(cls_name, N, obs_dim, B, extra_adds, int_first=False):
                 return
             live = ref[-min(n, N):]
             rng = RngStub()
-            out = buf.sample_batch(B, rng)
+            try:
+                out = buf.sample_batch(B, rng)
+            except Exception as ex:  # a non-empty buffer must deliver a batch (any batch size): an exception is a failed check
+                ctx.log.append(f"sample_batch({B}) raised {type(ex).__name__}: {ex}")
+                ctx.check(False, "sampling-a-non-empty-buffer-returns-a-batch")
             batch = out[0] if cls_name == "PrioritizedReplayBuffer" else out
             for k in FIELDS:
                 ctx.check(len(getattr(batch, k)) == B, "batch-size")
